@@ -1291,7 +1291,9 @@ class HTMLTextDocument:
         self._html = html
         if deps is None:
             deps = []
-        self._deps = deps
+        # Copy: the dependencies found in the text are appended to this list, which must
+        # not be the caller's own list object
+        self._deps = list(deps)
 
         self._deps_replace_pattern = deps_replace_pattern
 
